@@ -278,7 +278,8 @@ def run(ctx: Ctx):
         qp = cp.positional_params[2]
         Sp = pat.Snips(f, literals=[sp])
         MAXQ = "V_maxq = max(V_row.values())"
-        sol = Sp.solve([f"V_row = {qp}[{sp}]", MAXQ, "[V_a for V_a in V_row.keys() if V_row[V_a] == V_maxq]"])
+        sol = Sp.solve([f"V_row = {qp}[{sp}]", MAXQ, "[V_a for V_a in V_row.keys() if V_row[V_a] == V_maxq]"]) \
+            or Sp.solve([f"V_row = {qp}[{sp}]", MAXQ, "[V_a for V_a, V_v in V_row.items() if V_v == V_maxq]"])
         mx = sol[1][1] if sol else Sp.first(MAXQ)[0]
         ctx.check(sol is not None, "POL-1", f, mx if mx is not None else f.node, "greedy policy: exact maximisers of the state's Q row", "", "greedy set is not {a : Q[s][a] == max Q[s]}")
         rets = [r for r in ast.walk(f.node) if isinstance(r, ast.Return)]
